@@ -879,6 +879,7 @@ pub fn gen_scen(rng: &mut Rng) -> ScenC {
         response: rng.chance(7, 8),
         unique_tags: false,
         max_section: 10,
+        header_ptr: false,
     };
     let mut m = gen::gen_msg(rng, &cfg);
     let mut packet = gen::encode_with(&m, &cfg, rng.next_u64());
